@@ -69,8 +69,13 @@ func Verif_C09_forwarder_lifetime() {
 // two bytes replaced by that ID, addressed from the server the client asked to the client, and the
 // cached bytes themselves are not modified (other clients are served from them concurrently).
 func Verif_C09_cached_reply_id() {
-	n := 12 + vs.Choice("len", 3)*4
-	cached := vs.Bytes("cached", n)
+	n := []int{12, 16, 20, 1030}[vs.Choice("len", 4)] // 1030: beyond the pooled 1024-byte buffer (the oversize branch)
+	cached := vs.Bytes("cached", 20)
+	if n < 20 {
+		cached = cached[:n:n]
+	} else if n > 20 {
+		cached = append(cached, make([]byte, n-20)...) // a long answer: arbitrary head, plain tail
+	}
 	orig := append([]byte{}, cached...)
 	reqId := vs.U16("client.id")
 	var sent []byte
